@@ -12,7 +12,7 @@ package codec
 // the bytes.Reader it wraps show the same content and the cursor is not negative.
 //
 //@ pred validB(b) = b != nil && b.buf != nil
-//@ pred validR(b) = b != nil && b.buf != nil && b.ref == b.buf.src && b.buf.i >= 0 && allocated(b.ref) && b.depth >= 0 && b.depth <= maxNestDepth
+//@ pred validR(b) = b != nil && b.buf != nil && b.ref == b.buf.src && b.buf.i >= 0 && allocated(b.ref) && b.depth >= 0 && b.depth <= MAXD
 //
 // atHead: the wanted field is the very next field (the case property C02 speaks about: write, then read
 // with the same tag); in that case nothing has to be skipped.
@@ -629,7 +629,7 @@ package codec
 //@ func (*Reader).Reset
 //@   witness src = b.buf.src
 //@   witness i = b.buf.i
-//@   requires b != nil && b.buf != nil
+//@   requires b != nil && b.buf != nil && b.depth >= 0 && b.depth <= MAXD
 //@   modifies b.buf.i, b.depth, b.buf.src, b.ref
 //@   ensures b.depth == old(b.depth)
 //@   ensures validR(b) && b.buf.src == data && b.buf.i == 0
